@@ -142,10 +142,11 @@ theorem C08_pull_writes_file_wire (devPath : Bytes) (tt rt : Timeout) (w w' : Wo
   obtain ⟨rfl, -, -⟩ := pull_wire hrecs hdone hc hdd
   exact hsink
 
-/-- `_clse` runs in the `finally` clause of `pull`: for EVERY outcome of `pull`, either a guard or
-    `_open` raised (no stream was ever open), or a stream `t` was opened and the last message handed
-    to `_send` by the call is the CLSE of that stream; on a normal return the device's CLSE was
-    received in reply. -/
+/-- `_clse` runs on every path of `pull` (in the `except BaseException` handler when the transfer
+    raised, after the transfer otherwise — formerly a `finally` clause): for EVERY outcome of `pull`,
+    either a guard or `_open` raised (no stream was ever open), or a stream `t` was opened and the
+    last message handed to `_send` by the call is the CLSE of that stream; on a normal return the
+    device's CLSE was received in reply. -/
 theorem C08_close_in_finally (devPath : Bytes) (cb : CbMode) (tt rt : Timeout) (w w' : World) (res : Except Err Val)
     (evs : List TEv) (h : devPull devPath cb tt rt w = (res, w')) (hev : w'.trace = evs ++ w.trace)
     (hl : lockTransport ∉ w.locks) :
@@ -234,7 +235,7 @@ example : (devPull sxPath .raise (some 10) (some 10) wPullCb).1.toOption = some 
       = [(sxPath, 3, 5), (sxPath, 2, 5)] := by
   decide +kernel
 
-/-- a pull that fails after the first DATA record still sends CLSE last (the `finally` clause) -/
+/-- a pull that fails after the first DATA record still sends CLSE last (the close runs on every path) -/
 example : errOf (devPull sxPath .none (some 10) (some 10) wPullFail).1 = some (.adbCommandFailure [110, 111]) ∧
     (transmitted (devPull sxPath .none (some 10) (some 10) wPullFail).2.trace).getLast? = some ⟨.CLSE, 1, 7, []⟩ := by
   decide +kernel
